@@ -122,6 +122,8 @@ def run(c):
             orders = w.log
             kr_m, kp_m = n_r, n_p
         elif gen == 'of_k_pattern':
+            if len(pg) < 2:
+                return {'error': 'SKIP'}     # groups of k need k <= n/2: inadmissible with a single group
             k = max(1, min(len(pg) // 2, 1 + int(c['kfrac_p'] * (len(pg) // 2))))
             res = cv.sets_of_k_pattern(r, pattern_descriptor=pdn, k=k, random=c['random'])
             orders = w.log if c['random'] else [pg]
